@@ -65,7 +65,7 @@ def register(reg):
                         modifies=['batch.g_ops']),
         },
         ghost={('after', 'min_height = self.min_undo_height(self.state.height)'): []},
-        props=['C15'])
+        props=['C15', 'C05'])
 
     # window lemma (composition over the contracts above): a block h indexed while the daemon reported dh keeps
     # its undo row iff h >= min_undo_height(dh); caught up at T with dh <= T, every h of the window has one,
